@@ -7,6 +7,11 @@ ENGINES = [
 NOT_APPLICABLE = {}
 _NOTE = 'Trusted base: compiler + sanitizer runtimes, the engine in harness/engine.h, and the independent reference oracle named in the technique (self-tested at every start). Verdict is "held on everything explored", not absence.'
 TEXT = {
+ 'C16': dict(engine='sweep+pbt', design_ref='DESIGN.md 5/C16',
+   technique='exhaustive sweep + grammar-based property testing vs independent numeric reference (glibc strto*, __int128)',
+   level_text='Every 8/16-bit integer and (thorough) every one of the 2^32 float bit patterns is printed, checked for bit-exact round trip through glibc and the library, for minimal digit count and length; boundary/random 32/64-bit integers and doubles likewise; ~5*10^5 literal-grammar strings per quick run are parsed into 10 integer types, float and double and compared with the reference outcome (value / invalid_argument / out_of_range) in four string widths.',
+   level_note=_NOTE),
+
  'C12': dict(engine='sweep+pbt', design_ref='DESIGN.md 5/C12',
    technique='exhaustive sweep + property-based testing with a segmentation-agnostic tiling oracle over an independent UTF reference',
    level_text='Exhaustive over all 16.8 M UTF-8 strings of length <= 3, 810 k 4-byte strings by byte class, every UTF-16 unit and every surrogate pair, every UTF-32 unit up to 0x11FFFF, through every decoder/encoder/Transcode entry point and both policies; plus ~10^5 generated texts with embedded ill-formed chunks under ASan/UBSan with three mark variants. Exploration: small strings are closed completely, long ones sampled.',
